@@ -191,18 +191,18 @@ Definition prefetch : nat := Z.to_nat hdr_prefetch.
 
 (* readStreamEstablishHeader over a chunked stream.
 
-   de ("data with error"): the io.Reader contract allows the Read that
-   delivers the last bytes of the stream to report the end error in the same
-   call (n > 0, err = io.EOF; quic-go streams and iotest.DataErrReader do).
-   readAtLeast checks err before adding nr, so such a Read makes it fail and
-   drop the bytes.  With de = true the stream behaves that way: a readAtLeast
-   stage whose last Read exhausts the stream fails with EOF. *)
-Definition exhausted (s : stream) : bool := match sdata s with [] => true | _ => false end.
+   de ("data with error"): the reader is allowed to deliver the last bytes of
+   the stream together with the end error in one Read call (quic-go streams,
+   iotest.DataErrReader).  readAtLeast counts nr first and returns the error
+   only if n < min (Lib/Chunk.v read_n_de); de = false is a reader that reports
+   the end by a separate (0, EOF) Read. *)
+Definition rd (de : bool) (n : nat) (s : stream) : bytes * stream * bool :=
+  if de then read_full_de n s
+  else let '(b, s1) := read_full n s in (b, s1, (length b <? n)%nat).
 
 Definition read_header_de (de : bool) (s : stream) : outcome (bytes * stream) :=
-  let '(b, s1) := read_full prefetch s in            (* readAtLeast(r, 0, 4, b) *)
-  if (length b <? prefetch)%nat then Err E_EOF else
-  if de && exhausted s1 then Err E_EOF else
+  let '(b, s1, fail1) := rd de prefetch s in          (* readAtLeast(r, 0, 4, b) *)
+  if fail1 then Err E_EOF else
   match varint_dec b with                              (* ConsumeVarint(b) *)
   | VErr => Err E_VARINT
   | VOk hl n0 =>
@@ -215,9 +215,8 @@ Definition read_header_de (de : bool) (s : stream) : outcome (bytes * stream) :=
       let have := length tail in                       (* n := len(b) - headerLenBytes *)
       let copied := firstn hln tail in                 (* copy(headerBuf, b[headerLenBytes:]) *)
       if (have <? hln)%nat then                        (* readAtLeast(r, n, headerLen, headerBuf) *)
-        let '(more, s2) := read_full (hln - have) s1 in
-        if (length more <? hln - have)%nat then Err E_EOF else
-        if de && exhausted s2 then Err E_EOF else
+        let '(more, s2, fail2) := rd de (hln - have) s1 in
+        if fail2 then Err E_EOF else
         match unmarshal (copied ++ more) with
         | None => Err E_UNMARSHAL
         | Some pid => Ok (pid, s2)
@@ -263,9 +262,8 @@ Definition handle_incoming (local remote : bytes) (s : stream) : hres :=
 
 (* the same as a function of the data alone (no chunking): what the proofs show
    read_header computes for every chunking *)
-Definition parse_header_de (de : bool) (D : bytes) : outcome (bytes * bytes) :=
+Definition parse_header (D : bytes) : outcome (bytes * bytes) :=
   if (length D <? prefetch)%nat then Err E_EOF else
-  if de && (length D =? prefetch)%nat then Err E_EOF else
   match varint_dec (firstn prefetch D) with
   | VErr => Err E_VARINT
   | VOk hl n =>
@@ -274,24 +272,10 @@ Definition parse_header_de (de : bool) (D : bytes) : outcome (bytes * bytes) :=
       let X := skipn n D in
       let hln := Z.to_nat hl in
       if (length X <? hln)%nat then Err E_EOF else
-      if de && (prefetch - n <? hln)%nat && (length X =? hln)%nat then Err E_EOF else
       match unmarshal (firstn hln X) with
       | None => Err E_UNMARSHAL
       | Some pid => Ok (pid, skipn (Nat.max hln (prefetch - n)) X)
       end
-  end.
-
-Definition parse_header (D : bytes) : outcome (bytes * bytes) := parse_header_de false D.
-
-Definition handle_pure_de (de : bool) (local remote D : bytes) : hres :=
-  match parse_header_de de D with
-  | Ok (pid, rest) =>
-      match pid_validate pid with
-      | Some k => Closed k
-      | None => Dispatch pid local remote rest
-      end
-  | Err k => Closed k
-  | Panic => HPanic
   end.
 
 Definition handle_pure (local remote D : bytes) : hres :=
